@@ -13,8 +13,9 @@ REG.assumptions += [
     'P <= 2 phases, E <= 2 solutes; history length and grid sizes symbolic; PBM state satisfies PBM_INV and max >= 10*min (invariant of '
     'PopulationBalanceModel construction / re-mesh / extension, needed because fromDict rebuilds the PBM through its constructor)',
 ]
-REG.undecided += ['a trained surrogate reproduces its training data AT the training points: needs the interpolation property of scipy RBFInterpolator (assumed) and the '
-                  'feature-vector construction for arbitrary grids (np.tile/np.repeat/meshgrid on symbolic sizes): only the refit / pass-through / data round-trip parts are proved']
+REG.undecided += ['a trained surrogate reproduces its training data AT the training points: the kernel side is proved (RBFKernel hands the interpolator every training '
+                  'point and queries it through the same affine map), the interpolation property of scipy RBFInterpolator is assumed, and the feature-vector construction '
+                  'of the surrogate classes for arbitrary grids (meshgrid on symbolic sizes) is decided only for the first feature column']
 PP = 'kawin.precipitation.PrecipitationParameters'
 KB = 'kawin.precipitation.KWNBase'
 KE = 'kawin.precipitation.KWNEuler'
@@ -245,6 +246,65 @@ def c_fit(ctx, it, cfg):
     s2 = it.get(SUR, cname)(ThermStub([]), KernelStub, {})
     getattr(s2, fname)('AL3ZR')
     ctx.prove('no-data-no-model', 'AL3ZR' not in s2.fields[mname])
+
+
+@REG.contract('RBFKernel/fitted-on-every-training-point-and-queried-through-the-same-map', [SUR + ':RBFKernel.__init__', SUR + ':RBFKernel.predict'],
+              configs=[dict(name='normalize=%s' % nz, nz=nz) for nz in (True, False)])
+def c_rbf(ctx, it, cfg):
+    """the kernel hands the interpolator EVERY training point (row i = the affinely rescaled training input i, with its own output i) and queries it through the
+    same affine map; with the interpolation property of scipy's RBFInterpolator (assumed, see assumptions) the surrogate therefore reproduces its training
+    data at the training points"""
+    built = []
+
+    class Interp(object):
+        def __init__(self, x, y, *args, **kwargs):
+            self.x, self.y, self.args, self.kwargs, self.asked = x, y, args, dict(kwargs), []
+            built.append(self)
+
+        def __call__(self, q):
+            self.asked.append(q)
+            return ('answer', len(self.asked))
+    it.load(SUR).env['RBFInterpolator'] = Interp
+    N = integer(ctx, 'N', lambda v: v >= 2)
+    d = 2
+    x = array(ctx, 'xtrain', (N, d))
+    y = array(ctx, 'ytrain', (N,))
+    xs, ys = snapshot(x), snapshot(y)
+    kw = {'kernel': 'cubic', 'normalize': True} if cfg['nz'] else {'kernel': 'cubic'}
+    kw0 = dict(kw)
+    K = it.get(SUR, 'RBFKernel')
+    k = K(x, y, **kw)
+    ctx.prove('one-interpolator-built', len(built) == 1 and k.fields['rbfModel'] is built[0])
+    if len(built) != 1:
+        return
+    m = built[0]
+    off, sc = k.fields['xoffset'], k.fields['scale']
+    if cfg['nz']:
+        # training inputs spread in every dimension (largest > smallest value of each column; otherwise the code's rescaling divides by zero)
+        ctx.prove('scale-is-the-column-range-over-N', and_(*[eq(sc.get(j) * N, NP.amax(x, axis=0).get(j) - NP.amin(x, axis=0).get(j)) for j in range(d)]))
+        ctx.assume(and_(*[gt(sc.get(j), 0) for j in range(d)]))
+    ctx.prove('all-N-training-points-handed-over', and_(isinstance(m.x, ArrBase) and m.x.ndim == 2 and m.x.shape[1] == d, eq(m.x.shape[0], N), m.y is y or (isinstance(m.y, ArrBase) and m.y.ndim == 1), eq(m.y.shape[0], N)))
+    i = integer(ctx, 'i', lambda v: and_(v >= 0, v < N))
+    for j in range(d):
+        ctx.prove('row-i-is-training-input-i-rescaled[col%d]' % j, eq(m.x.get(i, j) * sc.get(j), x.get(i, j) - off.get(j)), inst=[i])
+    ctx.prove('output-i-stays-with-input-i', eq(m.y.get(i), y.get(i)), inst=[i])
+    ctx.prove('hyperparameters-forwarded-without-the-normalize-switch', m.kwargs == {'kernel': 'cubic'} and m.args == ())
+    if not cfg['nz']:
+        ctx.prove('identity-map-without-normalisation', and_(*[and_(eq(off.get(j), 0), eq(sc.get(j), 1)) for j in range(d)]))
+    unchanged(ctx, 'training-inputs', xs, x)
+    unchanged(ctx, 'training-outputs', ys, y)
+    M = integer(ctx, 'M', lambda v: v >= 1)
+    q = array(ctx, 'query', (M, d))
+    r = k.predict(q)
+    ctx.prove('answer-is-the-interpolators', r == ('answer', 1) and len(m.asked) == 1)
+    qq = m.asked[0]
+    t = integer(ctx, 't', lambda v: and_(v >= 0, v < M))
+    for j in range(d):
+        ctx.prove('query-goes-through-the-same-map[col%d]' % j, eq(qq.get(t, j) * sc.get(j), q.get(t, j) - off.get(j)), inst=[t])
+    # hence a query AT training input i reaches the interpolator AT the point it was fitted on
+    ctx.assume(and_(*[eq(q.get(t, j), x.get(i, j)) for j in range(d)]))
+    ctx.prove('training-point-queried-where-it-was-fitted', and_(*[eq(qq.get(t, j), m.x.get(i, j)) for j in range(d)]), inst=[t, i])
+    ctx.prove('canary/fitted-on-the-raw-inputs', eq(m.x.get(i, 0), x.get(i, 0)), expect='refuted' if cfg['nz'] else None) if cfg['nz'] else None
 
 
 @REG.contract('surrogate/rebuild-from-saved-data', [SUR + ':GeneralSurrogate._collectSurrogateData', SUR + ':GeneralSurrogate._processSurrogateData',
